@@ -2,8 +2,8 @@
 (* Behaviour generation and constant sets for model checking OAuth.tla *)
 EXTENDS OAuth, Json
 
-\* the seven names api.go:introspectAccessToken refuses
-CodeGuarded == {"iss", "sub", "exp", "iat", "active", "client_id", "scope"}
+\* the names api.go:introspectAccessToken refuses
+CodeGuarded == {"iss", "sub", "exp", "iat", "active", "client_id", "scope", "aud", "cnf", "jti", "nbf", "username", "token_type", "vps", "presentation_definitions", "presentation_submissions"}  \* auth/api/iam/api.go introspectAccessToken (complete since fix 8f74f82)
 \* every defect flag of the vp_token-bearer grant (C02: the quantifier's list + DPoP)
 AllS2SDefects == {"aud", "validity", "nodates", "nononce", "signer", "mixed", "unfulfilled", "foreigndef", "forgedmap",
                   "partial", "vpsig", "vcsig", "revoked", "expired", "stale", "scope", "multiscope", "baddpop"}
